@@ -237,6 +237,27 @@ def check_generators(ctx):
                 built = [g for g in gdefs if isinstance(g, ast.Call) and len(g.args) == 1 and isinstance(g.args[0], ast.Starred) and norm(g.args[0].value) == pv and norm(_uncast(g.func)) == ps[2]]
                 plain = [g for g in gdefs if norm(g) == ps[2]]
                 ok_p = len(built) == 1 and len(built) + len(plain) == len(gdefs)
+            if not ok_p and isinstance(val, ast.Call) and isinstance(val.func, ast.Name) and val.func.id == pv and isinstance(it, ast.Call) and dotted(it.func) == "zip" and len(it.args) == 2 and isinstance(it.args[1], ast.Name):
+                # the second loop variable *is* the gate: qubits are zipped with a sequence of gates that is either the plain gate repeated or
+                # one gate built from each parameter row, in order:  gates = repeat(factory) | (factory(*row) for row in parameters)
+                def _uncast2(e, depth=0):
+                    if isinstance(e, ast.Call) and dotted(e.func) in ("cast", "typing.cast") and len(e.args) == 2:
+                        return _uncast2(e.args[1], depth + 1)
+                    if isinstance(e, ast.Name) and depth < 3 and e.id != ps[2]:
+                        sd = d.single_def(e.id)
+                        return _uncast2(sd, depth + 1) if isinstance(sd, ast.AST) else e
+                    return e
+
+                gdefs2 = [v for v in d.defs.get(it.args[1].id, []) if isinstance(v, ast.AST)]
+                rep = [v for v in gdefs2 if isinstance(v, ast.Call) and (dotted(v.func) or "").split(".")[-1] == "repeat" and len(v.args) == 1 and norm(_uncast2(v.args[0])) == ps[2]]
+                gen = [v for v in gdefs2 if isinstance(v, (ast.GeneratorExp, ast.ListComp)) and len(v.generators) == 1 and not v.generators[0].ifs and norm(v.generators[0].iter) == ps[3] and isinstance(v.elt, ast.Call) and len(v.elt.args) == 1 and isinstance(v.elt.args[0], ast.Starred) and norm(v.elt.args[0].value) == norm(v.generators[0].target) and norm(_uncast2(v.elt.func)) == ps[2]]
+                if len(gen) == 1 and len(rep) + len(gen) == len(gdefs2):
+                    ok_p = True
+                    ok_zip_alt = True
+                else:
+                    ok_zip_alt = False
+            else:
+                ok_zip_alt = False
             ctx.check(ok_p, R3, fi.key + ":row-used-once", "each parameter row builds exactly the gate of its own iteration", f"{short(val)} does not build the gate from this iteration's parameter row", where)
             ok_zip = isinstance(it, ast.Call) and dotted(it.func) == "zip" and len(it.args) == 2 and norm(it.args[1]) == ps[3]
             if not ok_zip and isinstance(it, ast.Call) and dotted(it.func) == "zip" and len(it.args) == 2 and isinstance(it.args[1], ast.Name):
@@ -245,6 +266,7 @@ def check_generators(ctx):
                 if isinstance(rd, ast.IfExp):
                     arms_ = {norm(rd.body), norm(rd.orelse)}
                     ok_zip = ps[3] in arms_ and bool(arms_ & {"repeat(())", "itertools.repeat(())"})
+            ok_zip = ok_zip or ok_zip_alt
             ctx.check(ok_zip, R3, fi.key + ":rows-zipped", "qubits zipped with the parameter rows", f"{short(it)} does not pair the qubits with the parameter rows", where)
     rets = returned_exprs(fi.node)
     ctx.check(len(rets) == 1 and norm(rets[0]) == circ, R3, fi.key + ":returns-accumulator", "returns the extended circuit", "does not return the extended circuit", fi)
